@@ -383,7 +383,7 @@ def run_trees(case, ctx, rng):
 def run_broadcast(case, ctx, rng):
     """FeArray.broadcast accepts scalars, per-element, per-point and full fields; tensor_ndim disambiguates collisions."""
     key = "C12/broadcast"
-    for (Ne, nPg, d) in [(5, 4, 3), (3, 3, 3), (4, 2, 2), (2, 5, 2), (1, 4, 3), (5, 1, 3)]:
+    for (Ne, nPg, d) in [(5, 4, 3), (3, 3, 3), (4, 2, 2), (2, 5, 2), (1, 4, 3), (5, 1, 3), (4, 4, 2), (6, 6, 3)]:
         cls = f"Ne={Ne},nPg={nPg},d={d}"
         w = rng.normal(size=(Ne, nPg))
 
@@ -399,6 +399,12 @@ def run_broadcast(case, ctx, rng):
             ve, vp = rng.normal(size=Ne), rng.normal(size=nPg)
             chk("per-element", ve, np.broadcast_to(ve[:, None], (Ne, nPg)))
             chk("per-point", vp, np.broadcast_to(vp[None, :], (Ne, nPg)))
+        else:
+            # Ne == nPg: a 1-D array of that length is the per-element array every model / simulation parameter is documented
+            # to be (Utilities/_params.py: "a scalar, an (Ne,) array or an (Ne, nPg) array"); a per-point reading would
+            # silently transpose heterogeneous materials on meshes with as many elements as Gauss points
+            ve = rng.normal(size=Ne)
+            chk("per-element@Ne=nPg", ve, np.broadcast_to(ve[:, None], (Ne, nPg)))
         C = rng.normal(size=(d, d))
         chk("tensor2-const", C, np.broadcast_to(C, (Ne, nPg, d, d)), tensor_ndim=2)
         Ce = rng.normal(size=(Ne, d, d))
